@@ -19,6 +19,15 @@ Round-2 dimensions:
               fresh one keep being queried.  The kind monitor is the same (answer = type of the shard AS IT RUNS NOW);
               the minimal witnesses of the repaired defect C19-stale-kind-after-rehost (corpus/C19/
               stale-after-rehost-witnesses.txt) run first.
+Round-3 dimensions:
+  readiness   a hosted shard need not be ready when it is asked for: joining replicas (join=true, nobody to join: listed with
+              their type, Pending, never ready) of every type next to ready shards in every start order, all query orders,
+              and shards queried immediately after Start*Replica returned.  Required: on-disk -> no-op session at once;
+              regular / concurrent -> the decision "tracked" (the registration then fails or waits exactly as the local
+              SyncGetSession does: its error under the table, a status); the "not hosted" error only for an id not listed.
+  old sessions Propose / CloseSession through the facade vs SyncPropose / SyncCloseSession with tracked AND no-op sessions
+              obtained earlier (G) or made by hand (H): while the shard runs, after it was stopped, after the re-host (no-op),
+              for a never-hosted id, after the NodeHost was closed: same outcome, status code = table code of the local error.
   error types the error alphabet is not only the dragonboat/context values: wrapped, joined, pointer (nil too), struct,
               slice, map, struct holding slice/map/func/interface, array, string, int, embedding, status-typed errors and
               odd texts go through grpcError/GRPCError, and through Read as the error a state machine's Lookup returns.
@@ -90,6 +99,8 @@ class Block:
              "start_order": self.order}
         if getattr(self, "rehost", None):
             d["stop_and_rehost"] = self.rehost
+        if getattr(self, "readiness", None):
+            d["readiness"] = self.readiness
         if getattr(self, "corpus", None):
             d["regression_witness_of"] = self.corpus
         return d
@@ -138,7 +149,15 @@ def build_block(ck, types, order, qperms, with_errs, rng, NONHOSTED=NONHOSTED):
         # one more ordinary round after the failures: the state is what the successful calls made it
         b.add("P T %d f %s" % (s0, hexbytes(rng)), kind="P", api="T", shard=s0, path="f", arg="")
         b.add("R T %d l %s" % (s0, "7a"), kind="R", api="T", shard=s0, path="l", arg="7a")
+        add_keep(b, "T", s0, "kq")
+        add_handmade(b, "ht", NONHOSTED, "tracked")
+        add_handmade(b, "hn", NONHOSTED, "noop")
+        add_use(b, "T", "ht")
+        add_use(b, "T", "hn", ("propose",))
         b.add("C", kind="C")
+        add_use(b, "T", "kq")
+        add_use(b, "T", "ht")
+        add_use(b, "T", "hn", ("propose",))
         for op in ("plain-propose", "plain-read"):
             for path in "fl":
                 b.add("X T %d %s %s" % (s0, path, op), kind="X", api="T", shard=s0, path=path, op=op, closed=True)
@@ -157,6 +176,20 @@ def add_lookup_errs(b, shards, ks):
         for k in ks:
             for path in "fl":
                 b.add("E T %d %s %d" % (s, path, k), kind="E", api="T", shard=s, path=path, k=k)
+
+
+def add_keep(b, api, shard, name):
+    b.add("G %s %d %s" % (api, shard, name), kind="G", api=api, shard=shard, name=name)
+
+
+def add_handmade(b, name, shard, skind):
+    b.add("H %s %d %s" % (name, shard, skind), kind="H", name=name, shard=shard, skind=skind)
+
+
+def add_use(b, api, name, ops=("propose", "close")):
+    for op in ops:
+        for path in "fl":
+            b.add("Y %s %s %s %s" % (api, name, path, op), kind="Y", api=api, name=name, path=path, op=op)
 
 
 def build_rehost_block(types, X, plan, rng, lookup_ks=(), NONHOSTED=NONHOSTED):
@@ -184,8 +217,22 @@ def build_rehost_block(types, X, plan, rng, lookup_ks=(), NONHOSTED=NONHOSTED):
     for (op, path) in (("P", "f"), ("P", "l"), ("R", "f")):
         arg = hexbytes(rng)
         b.add("%s T %d %s %s" % (op, X, path, arg), kind=op, api="T", shard=X, path=path, arg=arg)
+    # sessions obtained now and used later (while the shard runs, after it was stopped, after the re-host), and hand-made
+    # sessions for a shard id that was never hosted: Propose / CloseSession through the facade vs the local call
+    add_keep(b, "T", X, "kx")
+    add_keep(b, "T", X, "kc")
+    add_use(b, "T", "kx", ("propose",))
+    add_use(b, "T", "kc", ("close",))
+    add_handmade(b, "ht", NONHOSTED, "tracked")
+    add_handmade(b, "hn", NONHOSTED, "noop")
+    add_use(b, "T", "ht")
+    add_use(b, "T", "hn")
+    cur_t = types[X]
     for ci, (mode, nt) in enumerate(plan):
         b.add("K %d %s" % (X, mode), kind="K", shard=X, mode=mode)
+        add_use(b, "T", "kx")
+        for path in "fl":
+            b.add("X T %d %s plain-read" % (X, path), kind="X", api="T", shard=X, path=path, op="plain-read")
         for a in apis:
             if a.endswith("m"):
                 b.add("Q %s %d" % (a, X), kind="Q", api=a, shard=X)
@@ -203,9 +250,15 @@ def build_rehost_block(types, X, plan, rng, lookup_ks=(), NONHOSTED=NONHOSTED):
         for a in now:
             b.add("Q %s %d" % (a, X), kind="Q", api=a, shard=X)
         apis = now
+        if cur_t == 3:
+            # a no-op session obtained from the earlier (on-disk) incarnation is good for any shard of that id
+            add_use(b, "T", "kx", ("propose",))
         for (op, path) in (("P", "f"), ("P", "l"), ("R", "f"), ("R", "l"), ("P", "f")):
             arg = hexbytes(rng)
             b.add("%s T %d %s %s" % (op, X, path, arg), kind=op, api="T", shard=X, path=path, arg=arg)
+        add_keep(b, "T", X, "kx")
+        add_use(b, "T", "kx", ("propose",))
+        cur_t = nt
     if lookup_ks:
         add_lookup_errs(b, ids, lookup_ks)
     b.add("END")
@@ -271,6 +324,87 @@ def gen_lookup_err_blocks(ck):
         b.add("R T 1 f 7a", kind="R", api="T", shard=1, path="f", arg="7a")
         b.add("END")
         blocks.append(b)
+    return blocks
+
+
+def gen_ready_blocks(ck):
+    """readiness of a hosted shard at query time: joining replicas (join=true, nobody to join: hosted, type known, nothing
+    applied, never ready) of every type next to ready shards in every start order, and shards queried immediately after
+    Start*Replica returned (before the first applied entry)"""
+    rng = ck.rng
+    blocks = []
+    combos = []
+    for ready in ((), (1,), (2,), (3,)):
+        for nj in (1, 2):
+            for jt in itertools.product((1, 2, 3), repeat=nj):
+                combos.append((ready, jt))
+    if ck.tier != "quick":
+        for ready in itertools.product((1, 2, 3), repeat=2):
+            for jt in itertools.product((1, 2, 3), repeat=2):
+                combos.append((ready, jt))
+    for (ready, jt) in combos:
+        starts = [("S", t) for t in ready] + [("SJ", t) for t in jt]
+        for order in sorted(set(itertools.permutations(range(len(starts))))):
+            ids = list(range(1, len(starts) + 1))
+            b = Block({}, [])
+            types = b.types
+            b.readiness = {}
+            b.add("NH")
+            b.add("A L")
+            for pos, ix in enumerate(order):
+                op, t = starts[ix]
+                sid = ids[pos]
+                types[sid] = t
+                b.order.append(sid)
+                b.readiness[str(sid)] = "ready" if op == "S" else "joining replica (join=true, nobody to join)"
+                b.add("%s %d %d" % (op, sid, t), kind="S", shard=sid, typ=t, mode={"S": None, "SJ": "join"}[op])
+                for q in ids[:pos + 1] + [NONHOSTED]:
+                    b.add("Q L %d" % q, kind="Q", api="L", shard=q)
+            allq = ids + [NONHOSTED]
+            perms = list(itertools.permutations(allq))
+            if len(perms) > 24:
+                perms = rng.sample(perms, 24)
+            for j, perm in enumerate(perms):
+                a = "q%d" % j
+                b.add("A " + a)
+                for q in list(perm) + list(perm):
+                    b.add("Q %s %d" % (a, q), kind="Q", api=a, shard=q)
+            # the ready shards still work, and a joining replica can be stopped and the id hosted again as a ready shard
+            b.add("A T")
+            for sid in ids:
+                if b.readiness[str(sid)] == "ready":
+                    for (op, path) in (("P", "f"), ("P", "l"), ("R", "f")):
+                        arg = hexbytes(rng)
+                        b.add("%s T %d %s %s" % (op, sid, path, arg), kind=op, api="T", shard=sid, path=path, arg=arg)
+            jid = [sid for sid in ids if b.readiness[str(sid)] != "ready"][0]
+            nt = 1 + (types[jid] + len(order)) % 3
+            b.add("K %d n" % jid, kind="K", shard=jid, mode="n")
+            b.add("Q L %d" % jid, kind="Q", api="L", shard=jid)
+            b.add("S %d %d" % (jid, nt), kind="S", shard=jid, typ=nt)
+            for a in ("L", "q0", "T"):
+                b.add("Q %s %d" % (a, jid), kind="Q", api=a, shard=jid)
+            b.add("END")
+            blocks.append(b)
+    # queried immediately after the start call returned
+    for rounds in range(3 if ck.tier == "quick" else 12):
+        for first in (1, 2, 3):
+            b = Block({}, [])
+            b.readiness = {"all": "each shard is queried immediately after Start*Replica returned, then again when it is ready"}
+            b.add("NH")
+            b.add("A L")
+            for sid in range(1, 7):
+                t = 1 + (first + sid + rounds) % 3 if sid % 2 else 3
+                b.types[sid] = t
+                b.order.append(sid)
+                b.add("SN %d %d" % (sid, t), kind="S", shard=sid, typ=t, mode="nowait")
+                b.add("A i%d" % sid)
+                for a in ("L", "i%d" % sid):
+                    b.add("Q %s %d" % (a, sid), kind="Q", api=a, shard=sid)
+            for sid in range(1, 7):
+                b.add("W %d" % sid, kind="W", shard=sid)
+                b.add("Q L %d" % sid, kind="Q", api="L", shard=sid)
+            b.add("END")
+            blocks.append(b)
     return blocks
 
 
@@ -344,6 +478,7 @@ def gen_blocks(ck):
                 blocks.append(build_block(ck, dict(zip(ids, tys)), order, allperms, False, rng, NONHOSTED=nh))
     blocks += gen_rehost_blocks(ck)
     blocks += gen_lookup_err_blocks(ck)
+    blocks += gen_ready_blocks(ck)
     return blocks
 
 
@@ -435,7 +570,12 @@ def run(ck):
                       "restart of the same replica), with 8 long-lived facade objects that asked for nothing / the other shards / X / "
                       "everything before the stop (with and without queries during the stopped phase) + a fresh object per incarnation, "
                       "all queried for X first, the others, X again after every re-host, + a PRNG sample of larger NodeHosts and 1-3 cycle "
-                      "plans; two NodeHosts behind a real gRPC listener. A case = one facade object's query sequence, one "
+                      "plans; in every stop / re-host configuration and after closing the NodeHost: Propose / CloseSession with tracked and no-op "
+                      "sessions obtained earlier or made by hand (running / stopped / re-hosted / never hosted / closed NodeHost), facade vs "
+                      "local call; readiness configurations: 0-1 ready shards (0-2 thorough) x 1-2 joining replicas (join=true, nobody to join) "
+                      "of every type in every start order, queried between the starts and in every query order (<=24 sampled beyond), the "
+                      "joining replica then stopped and its id hosted again; shards of every type queried immediately after Start*Replica "
+                      "returned (NodeHostInfo still says Pending) and again when ready; two NodeHosts behind a real gRPC listener. A case = one facade object's query sequence, one "
                       "call pair, one conversion, one error value; distinct by md5 of its canonical text; all are non-trivial.")
     import time
     t0 = time.time()
@@ -504,6 +644,7 @@ def run(ck):
     stats = {"Q": 0, "Q_tracked": 0, "Q_noop": 0, "Q_err": 0, "Q_panic": 0, "P": 0, "R": 0, "X": 0, "closed_nodehost_calls": 0}
     items = []          # (coq term, info)
     other_ix = {}
+    stats.update({"Y": 0, "Q_joining": 0, "starts_not_waited_for": 0, "of_them_reported_pending": 0})
     stats.update({"K": 0, "E": 0, "Q_after_rehost": 0, "Q_first_ever_after_rehost": 0, "Q_asked_before_with_other_kind": 0, "Q_while_stopped": 0})
     mangled = {}        # error names whose status message is not the error's text
     lookup_names = set()
@@ -521,6 +662,9 @@ def run(ck):
         inc = {}            # shard id -> number of times it has been started on this NodeHost (incarnation)
         sim = {}            # facade object -> shard id -> (kind, incarnation) of the last successful query (coverage + replay text only)
         ever = set()        # shard ids that have been hosted on this NodeHost
+        joining = set()     # hosted shards that can never become ready (join=true, nobody to join)
+        kept = {}           # name -> (kind, shard) of sessions obtained earlier / made by hand
+        pending_y = {}
         for k, ((text, meta), o) in enumerate(zip(b.lines, obs)):
             kind = meta.get("kind")
             if kind == "S":
@@ -530,6 +674,11 @@ def run(ck):
                 if int(o[1]) != meta["typ"]:
                     other_fail.append(("NodeHost reports another state machine type than the one started",
                                        {"kind": "executor-type", "block": b.describe(), "line": text, "obs": o}, False))
+                if meta.get("mode") == "join":
+                    joining.add(meta["shard"])
+                if meta.get("mode") and len(o) > 3:
+                    stats["starts_not_waited_for"] += 1
+                    stats["of_them_reported_pending"] += int(o[3])
                 hosted[meta["shard"]] = meta["typ"]
                 ever.add(meta["shard"])
                 inc[meta["shard"]] = inc.get(meta["shard"], 0) + 1
@@ -543,6 +692,7 @@ def run(ck):
                     other_fail.append(("harness could not stop shard", {"kind": "executor-stop", "block": b.describe(), "line": text, "obs": o}, False))
                     break
                 hosted.pop(meta["shard"], None)
+                joining.discard(meta["shard"])
                 for a in api_events:
                     api_events[a].append("EStop %d" % meta["shard"])
                     api_trace[a].append("stop %d" % meta["shard"])
@@ -573,6 +723,23 @@ def run(ck):
                 api_obs[a].append({"tracked": 0, "noop": 1, "err": 2}.get(okind, 3))
                 good = (okind == exp)
                 why = None
+                if s in joining and s in hosted:
+                    stats["Q_joining"] += 1
+                if s in joining and hosted.get(s) in (1, 2) and okind == "jerr":
+                    # the decision "tracked" is right; the registration cannot complete on a shard that is not ready: the error
+                    # must be the local SyncGetSession's error under the table (a status), not the "not hosted" answer
+                    code = int(o[1])
+                    lcode = expected_code(o[4]) if len(o) > 4 and o[4] not in ("-", "panic", "nil") else None
+                    if o[2] == "1" and lcode is not None and (code == lcode or (code in (2, 4) and lcode in (2, 4))):
+                        api_obs[a][-1] = 0
+                        ck.count_case("QJ %s %s %s" % (b.describe(), text, o[:3]))
+                        continue
+                    api_obs[a][-1] = 2 if o[2] != "1" else 0
+                    good = False
+                    why = ("GetSession(%d) for a hosted %s shard that is not ready yet (joining replica) fails with '%s' (status code %s%s); the "
+                           "local SyncGetSession fails with %s: status code %s required") % (
+                        s, TNAME[hosted[s]], o[3] if len(o) > 3 else "?", o[1], "" if o[2] == "1" else ", not a status",
+                        o[4] if len(o) > 4 else "?", lcode)
                 # what this facade object was told about s before (coverage counters and replay text; the verdict does not use it)
                 entry = sim[a].get(s)
                 if inc.get(s, 0) > 1 and s in hosted:
@@ -585,14 +752,15 @@ def run(ck):
                     stats["Q_while_stopped"] += 1
                 if s in hosted and okind in ("tracked", "noop"):
                     sim[a][s] = (okind, inc.get(s))
-                if not good:
+                if not good and why is None:
                     if okind == "panic":
                         why = "GetSession(%d) crashes (Go panic: %s); shard %d is %s" % (
                             s, " ".join(o[1:])[:80], s, "hosted, type " + TNAME[hosted[s]] if s in hosted else "not hosted")
                     elif s not in hosted:
                         why = "GetSession(%d) hands out a %s session although shard %d is not hosted (an error is required)" % (s, okind, s)
-                    elif okind == "err":
-                        why = "GetSession(%d) fails (%s) although shard %d is hosted (type %s)" % (s, " ".join(o[1:]), s, TNAME[hosted[s]])
+                    elif okind in ("err", "jerr"):
+                        why = "GetSession(%d) fails (%s) although shard %d is hosted (type %s%s)" % (
+                            s, " ".join(o[1:4]), s, TNAME[hosted[s]], ", a joining replica that has applied nothing yet" if s in joining else "")
                     else:
                         why = "GetSession(%d) hands out a %s session, but shard %d runs a %s state machine (a %s session is required)" % (
                             s, okind, s, TNAME[hosted[s]], exp)
@@ -616,8 +784,10 @@ def run(ck):
                                   "%s, in incarnation %d" % entry,
                                   "facade_object_saw": list(api_trace[a]), "failing_query": "GetSession(%d)" % s,
                                   "observed": " ".join(o), "required": exp,
-                                  "verif_in": [t for (t, m) in b.lines[:k + 1] if t == "NH" or m.get("kind") in ("S", "K") or t == "A " + a or
+                                  "verif_in": [t for (t, m) in b.lines[:k + 1] if t == "NH" or m.get("kind") in ("S", "K", "W") or t == "A " + a or
                                                (m.get("kind") == "Q" and m.get("api") == a)] + ["END"]}
+                        if joining:
+                            replay["joining_replicas"] = sorted(joining)
                         # (on the unrepaired loop the answer depends on dragonboat's map iteration order unless
                         # every hosted shard leads to the same wrong answer: prefer replays that always reproduce)
                         det = len(set(t == 3 for t in hosted.values())) <= 1
@@ -668,6 +838,69 @@ def run(ck):
                     if path == "f" and len(data) <= 80:
                         items.append(("rcase (LOk %s) 0 %s" % (hex_to_coq(exp), hex_to_coq(data)), ("R", b.describe(), text, o)))
                 ck.count_case("%s %s %s" % (b.describe(), text, o))
+            elif kind == "W":
+                if o[0] != "ok":
+                    other_fail.append(("harness: shard did not become ready", {"kind": "executor-start", "block": b.describe(), "line": text, "obs": o}, False))
+                    break
+            elif kind == "G":
+                if o[0] == "ok":
+                    kept[meta["name"]] = (o[1], meta["shard"])
+                # (no session: reported by the kind monitor; the Y lines of this name are skipped)
+            elif kind == "H":
+                kept[meta["name"]] = (meta["skind"], meta["shard"])
+            elif kind == "Y":
+                if meta["name"] not in kept:
+                    continue
+                skind, s = kept[meta["name"]]
+                if meta["path"] == "f":
+                    pending_y[(meta["name"], meta["op"])] = (text, o)
+                    continue
+                ftext, fo = pending_y.pop((meta["name"], meta["op"]), (None, None))
+                if fo is None:
+                    continue
+                lo = o
+                stats["Y"] += 1
+                state = "closed NodeHost" if closed else ("hosted" if s in hosted else ("stopped" if s in ever else "never hosted"))
+                stats["Y_" + state.replace(" ", "_")] = stats.get("Y_" + state.replace(" ", "_"), 0) + 1
+                opname = "Propose" if meta["op"] == "propose" else "CloseSession"
+                lname = "SyncPropose" if meta["op"] == "propose" else "SyncCloseSession"
+                what = None
+                if meta["op"] == "close" and skind == "noop":
+                    # nothing is registered for a no-op session: the facade completes without touching the NodeHost
+                    if fo[:2] != ["ok", "completed"]:
+                        what = "CloseSession of a no-op session (shard %d, %s) does not complete: %s" % (s, state, " ".join(fo)[:80])
+                elif fo[0] == "panic" or lo[0] == "panic":
+                    if fo[0] != lo[0]:
+                        what = "%s with a %s session obtained earlier (shard %d, %s): one path panics, the other does not (facade: %s, local: %s)" % (
+                            opname, skind, s, state, " ".join(fo)[:80], " ".join(lo)[:80])
+                elif lo[0] == "ok" or fo[0] == "ok":
+                    if lo[0] != fo[0]:
+                        what = "%s with a %s session obtained earlier (shard %d, %s): facade %s, local %s %s" % (
+                            opname, skind, s, state, " ".join(fo)[:80], lname, " ".join(lo)[:60])
+                    elif meta["op"] == "close" and fo[:2] != ["ok", "completed"]:
+                        what = "CloseSession of a tracked session (shard %d, %s) succeeds locally but is not completed through the facade" % (s, state)
+                elif fo[0] == "err" and lo[0] == "err":
+                    code, name = int(fo[1]), lo[1]
+                    if code != expected_code(name) or fo[2] != "1":
+                        what = ("%s through the facade with a %s session for shard %d (%s): the local %s fails with %s, the facade reports "
+                                "status code %d%s instead of %d") % (opname, skind, s, state, lname, name, code,
+                                                                     "" if fo[2] == "1" else " (not a status)", expected_code(name))
+                    sess = "[%d;7;%d;0]" % (s, 0 if skind == "noop" else 1)
+                    if meta["op"] == "propose":
+                        items.append(("pcase %s (LErr %s) %d 0 []" % (sess, err_coq(name, other_ix), code), ("Y", b.describe(), ftext, fo, lo)))
+                    else:
+                        items.append(("ccase %s (Some %s) %d" % (sess, err_coq(name, other_ix), code), ("Y", b.describe(), ftext, fo, lo)))
+                else:
+                    other_fail.append(("executor problem: %s / %s" % (" ".join(fo)[:60], " ".join(lo)[:60]),
+                                       {"kind": "executor", "block": b.describe(), "call": ftext}, False))
+                    continue
+                if what:
+                    pre = [t for (t, m) in b.lines[:k + 1] if t == "NH" or (m.get("kind") in ("S", "K") and m.get("shard") == s) or t == "C" or
+                           (m.get("kind") in ("G", "H") and m.get("name") == meta["name"]) or t == "A " + meta["api"]]
+                    other_fail.append((what, {"kind": "monitor:transparent-errors", "block": b.describe(), "session_kind": skind,
+                                              "shard_state_at_call": state, "facade_call": ftext, "facade_obs": fo, "local_obs": lo,
+                                              "verif_in": pre + [ftext, text, "END"]}, True))
+                ck.count_case("Y %s %s %s %s %s %s" % (TNAME.get(b.types.get(s)), skind, state, meta["op"], fo[:2], lo[:2]))
             elif kind == "E":
                 stats["E"] += 1
                 if meta["path"] == "f":
